@@ -33,8 +33,9 @@ def arrays(T):
     return [[round(0.2 + 0.15 * t, 6) for t in range(T)], [round(0.7 - 0.1 * t, 6) for t in range(T)], [round(0.1 * t, 6) for t in range(T)]]
 
 
-def gate_set(N):
-    """(label, roles): gates placed on the last role of a band, adjacent roles in a band, across bands"""
+def gate_set(N, extended=True):
+    """(label, roles): gates placed on the last role of a band, adjacent roles in a band, across bands; extended: also
+    daggered gates and expressions of loop variables"""
     C = sum(N)
     starts = [sum(N[:i]) for i in range(len(N))]
     g = []
@@ -52,6 +53,13 @@ def gate_set(N):
         g.append(("BS", (starts[0], starts[1] + N[1] - 1)))
     g.append(("D", (starts[0],)))
     g.append(("Rc", (C - 1,)))  # constant (non-looped) parameter
+    if not extended:
+        return g
+    g.append(("R.H", (C - 1,)))  # daggered gate with a looped parameter
+    if N[-1] >= 2:
+        g.append(("BS.H", (C - 2, C - 1)))
+    g.append(("R2p", (C - 1,)))  # expression of a loop variable
+    g.append(("X", (starts[0],)))  # decomposed by the engine into a gate whose parameter is an expression of the loop variable
     return g
 
 
@@ -70,6 +78,16 @@ def mk_op(label, pvars, t=None, arrs=None):
         return ops.Rgate(0.33)
     if label == "BS":
         return ops.BSgate(P(1), 0.4)
+    if label == "BS.H":
+        return ops.BSgate(P(1), 0.4).H
+    if label == "R.H":
+        return ops.Rgate(P(1)).H
+    if label == "R2p":
+        return ops.Rgate(2 * P(1) - P(0))
+    if label == "X":
+        return ops.Xgate(P(0))
+    if label == "MHomSel":
+        return ops.MeasureHomodyne(P(2), select=0.25)
     if label == "D":
         return ops.Dgate(P(0), 0.3)
     if label == "MHom":
@@ -230,7 +248,39 @@ class SeqChooser(Chooser):
         return super()._answer(fn, args)
 
 
+def check_keywords(spec, shots, res):
+    """settings of an operation that are not parameters (post-selection value) must survive every way of unrolling"""
+    case = {"spec": spec_label(spec), "shots": shots}
+    for mode in ("unroll", "space_unroll"):
+        if mode == "space_unroll" and (len(spec["N"]) > 1 or shots > 1 or int_shift(spec)):
+            continue
+        prog = build(spec)
+        try:
+            with warnings.catch_warnings():
+                warnings.simplefilter("ignore")
+                getattr(prog, mode)(shots=shots)
+        except Exception as e:  # noqa: BLE001
+            res.violation(unroll_sig(mode, "raises", spec, shots), f"{mode}(shots={shots}) of {spec_label(spec)} raised {type(e).__name__}: {e}", dict(case, mode=mode))
+            continue
+        sels = [getattr(c.op, "select", None) for c in prog.circuit if c.op.__class__.__name__ == "MeasureHomodyne"]
+        if not sels or any(x is None or abs(float(x) - 0.25) > 1e-12 for x in sels):
+            res.violation(f"C13|{mode}|post-selection-lost", f"{mode}(shots={shots}) of {spec_label(spec)}: the program post-selects every homodyne measurement on 0.25, the unrolled circuit carries select = {sels[:4]}", dict(case, mode=mode))
+    if not int_shift(spec) and shots == 1:  # post-selection with several shots is refused with a documented error
+        prog = build(spec)
+        try:
+            with warnings.catch_warnings():
+                warnings.simplefilter("ignore")
+                S = np.array(sf.Engine("gaussian").run(prog, shots=shots).samples, dtype=float)
+            if S.size == 0 or np.max(np.abs(S - 0.25)) > 1e-9:
+                res.violation("C13|run|post-selection-lost", f"run(shots={shots}) of {spec_label(spec)}: every homodyne measurement is post-selected on 0.25, samples are {S.ravel()[:4].tolist()}", dict(case, run={}))
+        except Exception as e:  # noqa: BLE001
+            res.violation(run_sig({}, "run|raises", spec), f"run(shots={shots}) of {spec_label(spec)} raised {type(e).__name__}: {e}", dict(case, run={}))
+    return True
+
+
 def check_program(spec, shots, res):
+    if spec["meas"] == "MHomSel":
+        return check_keywords(spec, shots, res)
     case = {"spec": spec_label(spec), "shots": shots}
     try:
         mu_ref, V_ref, outs = reference_joint(spec, shots)
@@ -511,14 +561,27 @@ def run(ctx):
     tasks = []
     expected = 0
     for N in layouts:
-        gs = gate_set(N)
+        # the base letters up to length L, the extended set (daggers, expressions) up to length L - 1
+        gs, gse = gate_set(N, False), gate_set(N)
         bodies = [b for k in range(0, L + 1) for b in itertools.product(gs, repeat=k)]
+        have = set(bodies)
+        bodies += [b for k in range(0, L) for b in itertools.product(gse, repeat=k) if b not in have]
         shifts = ("default", 1, 2)
         meass = ("MHom", "MHet") if quick else ("MHom", "MHet", "MFock")
         expected += len(bodies) * len(Ts) * len(shifts) * len(meass) * len(shotss)
         ch = max(1, len(bodies) // 48)
         for i in range(0, len(bodies), ch):
             tasks.append((N, bodies[i : i + ch], Ts, shifts, shotss, meass))
+    # three bands whose measured modes (0, 4, 8) do not come out of a Python set in ascending order; post-selected
+    # measurements: bodies up to length 1 (2 thorough)
+    for N, meass2 in (((4, 4, 2), ("MHom", "MHet")), ((2,), ("MHomSel",)), ((1, 2), ("MHomSel",))):
+        gs = gate_set(N)
+        bodies = [b for k in range(0, (1 if quick else 2) + 1) for b in itertools.product(gs, repeat=k)]
+        Ts2 = (1, 2, 3) if len(N) < 3 else (2, 5)
+        expected += len(bodies) * len(Ts2) * 3 * len(meass2) * len(shotss)
+        ch = max(1, len(bodies) // 8)
+        for i in range(0, len(bodies), ch):
+            tasks.append((N, bodies[i : i + ch], Ts2, ("default", 1, 2), shotss, meass2))
     for r in ctx.pmap(work_programs, tasks):
         ctx.add(r)
         if ctx.time_left() < 30:
